@@ -186,7 +186,10 @@ mod v_iface_frag_tx {
         kani::cover!(got != 0 && k + 1 == iplen && k >= p0, "last byte of the datagram carried by a later fragment");
     }
 
-    // Grid: max fragment payload is 24 (MTU 44), 32 (MTU 52), 48 (MTU 68 and the unaligned MTU 70), 80 (MTU 100).
+    // Grid: max fragment payload is 24 (MTU 44 and the unaligned MTUs 46, 50), 32 (MTU 52), 48 (MTU 68 and the
+    // unaligned MTU 70), 80 (MTU 100).  The unaligned MTUs exercise the rounding in `max_ipv4_fragment_size` for the
+    // first fragment (dispatch_ip) and for the later ones (dispatch_ipv4_frag): every non-final payload must be a
+    // multiple of 8 and every offset field must equal the bytes sent so far.
     // IP payload = 8 (UDP header) + application bytes.  Fragment payload lengths are given in `bounds=`.
 
     // @harness props=C12 cfg=KI4 tier=q to=600 mem=6 unwind=12 opts=nomem covers=2 funcs=InterfaceInner::dispatch_ip;InterfaceInner::dispatch_ipv4_frag;DeviceCapabilities::max_ipv4_fragment_size;Fragmenter::finished bounds=MTU_44;_UDP_payload_17;_fragment_payloads_24+1;_symbolic_payload_ports_ttl;_Medium::Ip
@@ -241,6 +244,18 @@ mod v_iface_frag_tx {
     #[kani::proof]
     pub(crate) fn ipv4_frag_tx_70_100() {
         frag_tx::<70, 100, 3, 72, 128>(ChecksumCapabilities::ignored(), false);
+    }
+
+    // @harness props=C12 cfg=KI4 tier=q to=600 mem=6 unwind=12 opts=nomem covers=2 funcs=InterfaceInner::dispatch_ip;InterfaceInner::dispatch_ipv4_frag;DeviceCapabilities::max_ipv4_fragment_size;Fragmenter::finished bounds=MTU_46;_UDP_payload_41;_fragment_payloads_24+24+1_(MTU_not_8-aligned:_46-20=26_rounds_down_to_24,_frames_<=_44);_symbolic_payload_ports_ttl;_Medium::Ip
+    #[kani::proof]
+    pub(crate) fn ipv4_frag_tx_46_41() {
+        frag_tx::<46, 41, 3, 56, 72>(ChecksumCapabilities::ignored(), false);
+    }
+
+    // @harness props=C12 cfg=KI4 tier=q to=600 mem=6 unwind=12 opts=nomem covers=2 funcs=InterfaceInner::dispatch_ip;InterfaceInner::dispatch_ipv4_frag;DeviceCapabilities::max_ipv4_fragment_size;Fragmenter::finished bounds=MTU_50;_UDP_payload_63;_fragment_payloads_24+24+23_(MTU_not_8-aligned:_50-20=30_rounds_down_to_24,_frames_<=_44);_symbolic_payload_ports_ttl;_Medium::Ip
+    #[kani::proof]
+    pub(crate) fn ipv4_frag_tx_50_63() {
+        frag_tx::<50, 63, 3, 56, 96>(ChecksumCapabilities::ignored(), false);
     }
 
     // @harness props=C12 cfg=KI4 tier=q to=900 mem=6 unwind=12 opts=nomem covers=2 funcs=InterfaceInner::dispatch_ip;InterfaceInner::dispatch_ipv4_frag;DeviceCapabilities::max_ipv4_fragment_size;Fragmenter::finished bounds=MTU_100;_UDP_payload_228;_fragment_payloads_80+80+76_(datagram_fills_the_256-byte_fragmentation_buffer_exactly);_symbolic_payload_ports_ttl;_Medium::Ip
